@@ -122,7 +122,7 @@ func (r *DailyRotateRule) OutdatedFiles() []string {
 
 	var outdates []string
 	for _, file := range files {
-		if !isBackupName(file, filepath.Clean(r.filename)+r.delimiter, "", dateFormat) {
+		if !isBackupName(filepath.Base(file), filepath.Base(r.filename)+r.delimiter, "", dateFormat) {
 			continue
 		}
 		if file < boundaryFile {
@@ -188,7 +188,7 @@ func (r *SizeLimitRotateRule) OutdatedFiles() []string {
 
 	backups := files[:0]
 	for _, f := range files {
-		if isBackupName(f, filepath.Join(dir, prefix+r.delimiter), ext, fileTimeFormat) {
+		if isBackupName(filepath.Base(f), prefix+r.delimiter, ext, fileTimeFormat) {
 			backups = append(backups, f)
 		}
 	}
@@ -456,7 +456,7 @@ func gzipFile(file string) error {
 	return os.Remove(file)
 }
 
-// isBackupName 判断 glob 匹配到的 file 是否真的是本规则生成的备份：
+// isBackupName 判断 glob 匹配到的文件（只取文件名，目录已由 glob 限定）是否真的是本规则生成的备份：
 // 去掉固定的前缀、扩展名（以及可选的 .gz）之后，剩下的部分必须是 layout 格式的时间。
 // 同目录下名字以相同前缀开头的其他日志文件（如 svc-api.log 之于 svc.log）不是备份。
 func isBackupName(file, prefix, ext, layout string) bool {
